@@ -78,6 +78,10 @@ CHECKS = {
          "TLC checks the transcribed kd-tree search against the minimum-distance definition for every point set, every arrangement the median split may leave and every query; the transcribed polygon code against the closed-polygon definition for every simple polygon; the great-circle mechanism (clamp included) against R*acos on the 26-direction configuration where dot products are integers. Every enumerated input is then passed to the real kernels. Bezier closest points and the coordinate round trip are compared numerically with brute force (exploration-strength for those two).",
          "4x4 lattices, <= 4/5 points, polygons <= 4/5 vertices, polylines <= 3/4 points with bends <= 60 degrees; " + NOTE,
          "TLA+/TLC Mech|=Prop for kd-tree, polygon, great circle (Kernels.tla, Extent.tla) + direct kernel replay; brute-force comparison for Bezier / round trip"),
+ "C20": ("exploration",
+         "Model-directed exploration: Envelope.tla states the envelope, monotonicity and boundary-value predicates and TLC enumerates the cases (oceanic cooling models x ridge geometries x velocities / ages x constant or laterally varying plate thickness; mass-conserving and plate-model slabs x dips x velocities x plate ages) and lays out vertical, horizontal and cross-slab probe lines; the harness checks the inequalities on the library's replies (slack 1e-9 relative).",
+         "TLC does not evaluate the inequalities; 90 cases, about 60 thousand probe points; slab ambient = background adiabat; " + NOTE,
+         "TLA+ case and probe-line enumeration (Envelope.tla) + replay with envelope / monotonicity oracles"),
 }
 
 NOT_APPLICABLE = {}
